@@ -65,6 +65,20 @@ def plan(tier, seed):
     for nd, n in ((1, 16), (1, 33), (2, 8), (2, 16), (3, 8), (3, 5)):
         for ov in (1.25, 2):
             P.add("worst", grid=[n] * nd, oversamp=ov, width=4)
+    # histories: the same image size transformed with several (oversamp, width) settings in
+    # one process - in particular oversampling factors that round to the same oversampled grid
+    # size - then the first setting again: anything cached between calls must be keyed by
+    # every parameter, and a repeated call must give the identical result
+    for i in range(40 if quick else 500):
+        nd = int(pick(rng, [1, 1, 2]))
+        n = int(pick(rng, [4, 8, 10, 12, 16, 20]))
+        grid = [n] * nd if nd == 1 else [n, int(pick(rng, [4, 6, 8, 10]))]
+        settings = [(1.25, 4), (1.3, 4), (1.35, 4), (1.5, 4), (2, 4), (1.25, 5), (1.25, 3.5),
+                    (2, 6)]
+        k = int(rng.integers(3, 6))
+        seq = [settings[j] for j in rng.choice(len(settings), size=k, replace=False)]
+        P.add("history", grid=grid, M=int(rng.integers(16, 32)), seq=[list(s_) for s_ in seq],
+              ccls=pick(rng, ["inside", "outside"]), cseed=int(rng.integers(1 << 30)))
     return P.cases
 
 
@@ -102,7 +116,7 @@ def run_case(case):
     rng = rng_for(case)
     grid = case["grid"]
     nd = len(grid)
-    ov, w = case["oversamp"], case["width"]
+    ov, w = case.get("oversamp"), case.get("width")
     N = int(np.prod(grid))
     if case["gen"] == "worst":
         # unit impulse on a corner voxel; every coordinate sits at the same offset c = 1/256
@@ -135,6 +149,47 @@ def run_case(case):
                             mech="threshold", obs=obs)
         return held(sig, obs, 1)
 
+    if case["gen"] == "history":
+        M = case["M"]
+        coord = lops.make_coord(case["cseed"], [M], grid, case["ccls"])
+        x = crandn(rng, grid)
+        ref = O.ndft(x, coord, nd)
+        sig = "history|%dd|%s" % (nd, case["ccls"])
+        wit = {k: case[k] for k in ("grid", "M", "seq", "ccls", "cseed")}
+        wit["nd"] = nd
+        first = None
+        checks = 0
+        worst = 0.0
+        for (ov_, w_) in [tuple(s_) for s_ in case["seq"]] + [tuple(case["seq"][0])]:
+            y = sp.nufft(x, coord, oversamp=ov_, width=w_)
+            ya = sp.nufft_adjoint(y, coord, grid, oversamp=ov_, width=w_)
+            err = metric(y, ref, x, M, N)
+            checks += 1
+            th = THRESH.get((ov_, w_))
+            bound = th if th is not None else 0.25
+            if nd >= 2 and th is not None:
+                bound = max(th, sep_bound(ov_, nd))
+            worst = max(worst, err / bound)
+            if not err <= bound:
+                return violated(sig, "after other (oversamp, width) settings were used in this "
+                                "process, nufft at (%s, %s) is off by %.4f (bound %.3g)" % (
+                                    ov_, w_, err, bound), dict(wit, err=err), mech="history",
+                                obs={"err": err})
+            # adjoint with the same setting
+            xg = crandn(rng, grid)
+            yg = sp.nufft(xg, coord, oversamp=ov_, width=w_)
+            lhs, rhs = inner(yg, y), inner(xg, ya)
+            sc = nrm(yg) * nrm(y) + nrm(xg) * nrm(ya) + 1e-300
+            if not abs(lhs - rhs) <= 1e-10 * sc:
+                return violated(sig, "adjoint identity fails at (%s, %s) in a history" % (
+                    ov_, w_), wit, mech="history-adjoint")
+            if first is None:
+                first = y.copy()
+        if not np.array_equal(first, y):
+            return violated(sig, "repeating the first setting after others gives a different "
+                            "result (max diff %.3g)" % float(np.max(np.abs(first - y))), wit,
+                            mech="history-nondeterministic")
+        return held(sig, {"err/bound": worst}, checks)
     batch, M = case["batch"], case["M"]
     pts = [M] if not case["pts2d"] else [2, (M + 1) // 2]
     Mtot = int(np.prod(pts))
